@@ -1,4 +1,4 @@
-import CuqiVerif.Model.C10
+import CuqiVerif.Proofs.C10
 import Mathlib.Probability.Distributions.Gamma
 import Mathlib.Analysis.SpecialFunctions.Pow.Real
 import Mathlib.Analysis.SpecialFunctions.Log.Basic
@@ -6,16 +6,36 @@ import Mathlib.Tactic.Ring
 import Mathlib.Tactic.Linarith
 import Mathlib.Tactic.Positivity
 import Mathlib.Tactic.NormNum
+import Mathlib.Tactic.FieldSimp
+import Mathlib.Tactic.IntervalCases
+
+/-!
+# C10 — conjugate and direct samplers draw from the exact conditional: property theorems
+
+All statements are about the executable definitions of `Model/C10.lean` (the ones the driver runs;
+rationals are cast into `ℝ` where analysis is needed) or about generic real/ring statements that
+they instantiate.  `gammaPDFReal` is Mathlib's Gamma density (`Mathlib.Probability.Distributions.Gamma`).
+
+1. analysis: log-density of the Gamma, proportionality of kernels (`conj_proportional_iff`);
+2. the model's exactness flag, Gaussian / GMRF instances, the periodic/Neumann finding;
+3. the target's kernel and the quadratic forms (any square-root factor, regularised factor);
+4. the validators' decision procedures (soundness, power family, probe incompleteness, legacy);
+5. Direct: the chain is the target's own draw stream;
+6. a dependence outside the structure can never be sampled exactly.
+-/
 
 open ProbabilityTheory Real
 
 namespace CuqiVerif.C10
+open CuqiVerif.C20 (BC FMat)
+
+/-! ## 1. Analysis -/
 
 /-- log of a density kernel `s^a e^{-b s}` along the hyper-parameter -/
 noncomputable def logKernel (a b s : ℝ) : ℝ := a * Real.log s - b * s
 
-/-- **Log-density of the Gamma the samplers draw from** (Mathlib's `gammaPDFReal`, shape `a`,
-    rate `r`): `log f(s) = a log r - log Γ(a) + (a-1) log s - r s` for every `s > 0`. -/
+/-- **Log-density of the Gamma the samplers draw from** (Mathlib's `gammaPDFReal`, shape `a`, rate
+    `r`): `log f(s) = a log r - log Γ(a) + (a-1) log s - r s` for every `s > 0`. -/
 theorem log_gammaPDFReal {a r s : ℝ} (ha : 0 < a) (hr : 0 < r) (hs : 0 < s) :
     Real.log (gammaPDFReal a r s) = (a * Real.log r - Real.log (Real.Gamma a)) + logKernel (a - 1) r s := by
   unfold gammaPDFReal logKernel
@@ -26,5 +46,592 @@ theorem log_gammaPDFReal {a r s : ℝ} (ha : 0 < a) (hr : 0 < r) (hs : 0 < s) :
   rw [Real.log_mul (by positivity) (by positivity), Real.log_mul (by positivity) (by positivity),
     Real.log_div h1.ne' h2.ne', Real.log_rpow hr, Real.log_rpow hs, Real.log_exp]
   ring
+
+example : Real.log (gammaPDFReal 2 3 1) = (2 * Real.log 3 - Real.log (Real.Gamma 2)) + logKernel (2 - 1) 3 1 :=
+  log_gammaPDFReal (by norm_num) (by norm_num) (by norm_num)
+
+/-- **Two kernels `s^a e^{-bs}`, `s^{a'} e^{-b's}` are proportional on `s > 0` iff `a = a'` and
+    `b = b'`** (both directions; `log 2 ≠ 0` separates the `log s` and the `s` parts). -/
+theorem logKernel_gap_const_iff (a b a' b' : ℝ) :
+    (∃ C, ∀ s : ℝ, 0 < s → logKernel a b s - logKernel a' b' s = C) ↔ (a = a' ∧ b = b') := by
+  constructor
+  · rintro ⟨C, h⟩
+    have h1 := h 1 one_pos
+    have h2 := h 2 two_pos
+    have h4 := h 4 (by norm_num)
+    have l4 : Real.log 4 = 2 * Real.log 2 := by
+      rw [show (4 : ℝ) = 2 ^ 2 by norm_num, Real.log_pow]; norm_num
+    have l2 : 0 < Real.log 2 := Real.log_pos (by norm_num)
+    unfold logKernel at h1 h2 h4
+    rw [Real.log_one] at h1
+    rw [l4] at h4
+    have hy : b = b' := by nlinarith
+    have hx : (a - a') * Real.log 2 = 0 := by nlinarith
+    rcases mul_eq_zero.1 hx with h0 | h0
+    · exact ⟨by linarith, hy⟩
+    · exact absurd h0 l2.ne'
+  · rintro ⟨rfl, rfl⟩
+    exact ⟨0, fun s _ => sub_self _⟩
+
+example : ¬ ∃ C, ∀ s : ℝ, 0 < s → logKernel (9 / 2) 5 s - logKernel 4 5 s = C := by
+  rw [logKernel_gap_const_iff]; norm_num
+
+/-- **`conj_proportional` (real level).** The density of `Gamma(shape, rate)` is proportional on
+    `s > 0` to a target whose log-density along the hyper-parameter is `a log s - b s + const`
+    **iff** `shape - 1 = a` and `rate = b`.  ⇐ is the property; ⇒ says nothing else can be exact. -/
+theorem conj_proportional_iff {shape rate : ℝ} (hsh : 0 < shape) (hr : 0 < rate) (a b : ℝ) :
+    (∃ C, ∀ s : ℝ, 0 < s → Real.log (gammaPDFReal shape rate s) - logKernel a b s = C)
+      ↔ (shape - 1 = a ∧ rate = b) := by
+  rw [← logKernel_gap_const_iff]
+  constructor
+  · rintro ⟨C, h⟩
+    refine ⟨C - (shape * Real.log rate - Real.log (Real.Gamma shape)), fun s hs => ?_⟩
+    have := h s hs
+    rw [log_gammaPDFReal hsh hr hs] at this
+    linarith
+  · rintro ⟨C, h⟩
+    refine ⟨C + (shape * Real.log rate - Real.log (Real.Gamma shape)), fun s hs => ?_⟩
+    rw [log_gammaPDFReal hsh hr hs]
+    have := h s hs
+    linarith
+
+example : ∃ C, ∀ s : ℝ, 0 < s → Real.log (gammaPDFReal (9 / 2) 5 s) - logKernel (7 / 2) 5 s = C :=
+  (conj_proportional_iff (by norm_num) (by norm_num) _ _).2 ⟨by norm_num, rfl⟩
+
+
+/-! ## 2. Exactness of the sampler's Gamma, decided on the model -/
+
+/-- **The model's exactness flag (what the driver prints) is `m = r` and `q_used = q_target`:**
+    the Gamma built by `sample()`/`step()` matches the target's own kernel iff the count `m` the
+    sampler uses equals the rank the likelihood reports and the quadratic form it evaluates is the
+    one in the likelihood's log-density.  Any likelihood (`Quad`), any data, any `α β`. -/
+theorem outcome_exact_iff (reg : Bool) (Q : Quad) (b : List ℚ) (α β : ℚ) :
+    (outcome reg Q b α β).exact = true ↔ (mOf reg b = Q.rank ∧ Q.used = Q.target) := by
+  unfold Outcome.exact outcome conjGamma
+  simp only [Bool.and_eq_true, beq_iff_eq]
+  constructor
+  · rintro ⟨h1, h2⟩
+    refine ⟨?_, by linarith⟩
+    have : ((mOf reg b : ℕ) : ℚ) = (Q.rank : ℚ) := by linarith
+    exact_mod_cast this
+  · rintro ⟨h1, h2⟩
+    rw [h1, h2]
+    exact ⟨by ring, rfl⟩
+
+example : (outcome false ⟨6, 6, 3⟩ [1, 2, 3] 2 3).exact = true :=
+  (outcome_exact_iff _ _ _ _ _).2 ⟨rfl, rfl⟩
+
+/-- **`conj_proportional` for the executable model.**  For every outcome the driver can compute
+    (positive shape and rate): the density of the Gamma drawn from is proportional on `s > 0` to
+    the target kernel `s^tLog e^{-tLin s}` **iff** the model's `exact` flag is `true`. -/
+theorem sampler_exact_iff (o : Outcome) (hsh : 0 < o.gamma.shape) (hr : 0 < o.gamma.rate) :
+    (∃ C, ∀ s : ℝ, 0 < s →
+        Real.log (gammaPDFReal (o.gamma.shape : ℝ) (o.gamma.rate : ℝ) s)
+          - logKernel (o.tLog : ℝ) (o.tLin : ℝ) s = C)
+      ↔ o.exact = true := by
+  rw [conj_proportional_iff (by exact_mod_cast hsh) (by exact_mod_cast hr)]
+  unfold Outcome.exact
+  simp only [Bool.and_eq_true, beq_iff_eq]
+  constructor
+  · rintro ⟨h1, h2⟩
+    exact ⟨by exact_mod_cast h1, by exact_mod_cast h2⟩
+  · rintro ⟨h1, h2⟩
+    exact ⟨by exact_mod_cast congrArg (fun x : ℚ => (x : ℝ)) h1, by exact_mod_cast h2⟩
+
+example : ∃ C, ∀ s : ℝ, 0 < s →
+    Real.log (gammaPDFReal ((outcome false ⟨6, 6, 3⟩ [1, 2, 3] 2 3).gamma.shape : ℝ)
+      ((outcome false ⟨6, 6, 3⟩ [1, 2, 3] 2 3).gamma.rate : ℝ) s)
+      - logKernel ((outcome false ⟨6, 6, 3⟩ [1, 2, 3] 2 3).tLog : ℝ) ((outcome false ⟨6, 6, 3⟩ [1, 2, 3] 2 3).tLin : ℝ) s = C :=
+  (sampler_exact_iff _ (by simp [outcome, conjGamma, mOf]; norm_num) (by simp [outcome, conjGamma]; norm_num)).2
+    ((outcome_exact_iff _ _ _ _ _).2 ⟨rfl, rfl⟩)
+
+/-- **Proportionality in density form:** when the flag is `true`, `gammaPDFReal shape rate s =
+    C · s^tLog · e^{-tLin s}` on `s > 0` with the explicit constant `C = rate^shape / Γ(shape) > 0`. -/
+theorem density_proportional (o : Outcome) (hsh : 0 < o.gamma.shape) (hr : 0 < o.gamma.rate)
+    (hex : o.exact = true) :
+    ∃ C : ℝ, 0 < C ∧ ∀ s : ℝ, 0 < s →
+      gammaPDFReal (o.gamma.shape : ℝ) (o.gamma.rate : ℝ) s
+        = C * (s ^ (o.tLog : ℝ) * Real.exp (-((o.tLin : ℝ) * s))) := by
+  unfold Outcome.exact at hex
+  simp only [Bool.and_eq_true, beq_iff_eq] at hex
+  obtain ⟨h1, h2⟩ := hex
+  have hshR : (0 : ℝ) < (o.gamma.shape : ℝ) := by exact_mod_cast hsh
+  have hrR : (0 : ℝ) < (o.gamma.rate : ℝ) := by exact_mod_cast hr
+  refine ⟨(o.gamma.rate : ℝ) ^ (o.gamma.shape : ℝ) / Real.Gamma (o.gamma.shape : ℝ), ?_, fun s hs => ?_⟩
+  · exact div_pos (Real.rpow_pos_of_pos hrR _) (Real.Gamma_pos_of_pos hshR)
+  · unfold gammaPDFReal
+    rw [if_pos hs.le, ← h1, ← h2]
+    push_cast
+    ring
+
+/-- **Gaussian likelihood (covariance `1/s` or precision `s`, any dimension `n`, any forward-model
+    output `Ax`, any data vector of length `n`, any `c1`, `α`, `β`): the sampler is exact.** -/
+theorem gauss_exact (n : ℕ) (c1 : ℚ) (ax b : List ℚ) (α β : ℚ) (hb : b.length = n) :
+    (outcome false (gaussQuad n c1 ax b) b α β).exact = true := by
+  rw [outcome_exact_iff]
+  exact ⟨by simp [mOf, gaussQuad, hb], rfl⟩
+
+example : (outcome false (gaussQuad 3 1 [0, 1, 2] [1, 1, 5]) [1, 1, 5] 2 3).exact = true :=
+  gauss_exact 3 1 _ _ 2 3 rfl
+
+/-- **GMRF with zero boundary condition, every order, 1-D and 2-D, every size: exact.** -/
+theorem gmrf_zero_exact (order pd n : ℕ) (c1 : ℚ) (mean b : List ℚ) (α β : ℚ)
+    (hb : b.length = gmrfDim pd n) :
+    (outcome false (gmrfQuad order .zero pd n c1 mean b) b α β).exact = true := by
+  rw [outcome_exact_iff]
+  refine ⟨by simp [mOf, gmrfQuad, C20.declaredRank, hb], ?_⟩
+  simp [gmrfQuad, gmrfReg]
+
+example : (outcome false (gmrfQuad 2 .zero 1 4 1 [0, 0, 0, 0] [1, 2, 0, 5]) [1, 2, 0, 5] 2 3).exact = true :=
+  gmrf_zero_exact 2 1 4 1 _ _ 2 3 rfl
+
+/-- **Expected finding (DESIGN §5 no. 18), for all orders, sizes, data:** with periodic or Neumann
+    boundary conditions the GMRF reports rank `dim - 1` while the sampler counts `m = len(b) = dim`:
+    the Gamma drawn from is *never* proportional to the posterior (by `sampler_exact_iff`). -/
+theorem gmrf_nonzero_bc_not_exact (order : ℕ) (bc : BC) (pd n : ℕ) (c1 : ℚ) (mean b : List ℚ) (α β : ℚ)
+    (hbc : bc ≠ .zero) (hb : b.length = gmrfDim pd n) (hd : 0 < gmrfDim pd n) :
+    (outcome false (gmrfQuad order bc pd n c1 mean b) b α β).exact = false := by
+  rw [Bool.eq_false_iff, Ne, outcome_exact_iff]
+  rintro ⟨h, -⟩
+  have hr : (gmrfQuad order bc pd n c1 mean b).rank = gmrfDim pd n - 1 := by
+    cases bc <;> simp_all [gmrfQuad, C20.declaredRank]
+  rw [hr] at h
+  simp only [mOf, Bool.false_eq_true, if_false] at h
+  omega
+
+example : (outcome false (gmrfQuad 1 .periodic 1 5 1 [0, 0, 0, 0, 0] [0, 1, 2, 3, 4]) [0, 1, 2, 3, 4] 2 3).exact = false :=
+  gmrf_nonzero_bc_not_exact 1 .periodic 1 5 1 _ _ 2 3 (by decide) rfl (by decide)
+
+/-- **Size of the rate defect:** the quadratic form the sampler evaluates exceeds the one in the
+    GMRF's own density by `c1 · reg · ‖x - mean‖²`, `reg = 0` (zero bc) or `2⁻²⁶` (periodic/Neumann). -/
+theorem gmrf_used_eq_target_add (order : ℕ) (bc : BC) (pd n : ℕ) (c1 : ℚ) (mean b : List ℚ) :
+    (gmrfQuad order bc pd n c1 mean b).used
+      = (gmrfQuad order bc pd n c1 mean b).target
+        + c1 * (gmrfReg bc * normSq (gmrfDim pd n) (dev mean b)) := by
+  simp only [gmrfQuad]; ring
+
+
+/-! ## 3. The target's own kernel, and the quadratic forms -/
+
+/-- **Where `tLog`, `tLin` come from:** the likelihood kernel of a Gaussian with precision `s·P₁`
+    and reported rank `r` (`s^{r/2} e^{-s q/2}`, `q = vᵀP₁v`) times the `Gamma(α, β)` prior density
+    has log `(r/2 + α - 1) log s - (q/2 + β) s + const` on `s > 0`. -/
+theorem posterior_kernel {r q α β s : ℝ} (hα : 0 < α) (hβ : 0 < β) (hs : 0 < s) :
+    Real.log (s ^ (r / 2) * Real.exp (-(s * q / 2)) * gammaPDFReal α β s)
+      = logKernel (r / 2 + α - 1) (q / 2 + β) s + (α * Real.log β - Real.log (Real.Gamma α)) := by
+  have h1 : 0 < s ^ (r / 2) := Real.rpow_pos_of_pos hs _
+  have h3 : 0 < gammaPDFReal α β s := gammaPDFReal_pos hα hβ hs
+  rw [Real.log_mul (by positivity) h3.ne', Real.log_mul h1.ne' (Real.exp_pos _).ne',
+    Real.log_rpow hs, Real.log_exp, log_gammaPDFReal hα hβ hs]
+  unfold logKernel
+  ring
+
+example : Real.log ((2 : ℝ) ^ ((3 : ℝ) / 2) * Real.exp (-(2 * 6 / 2)) * gammaPDFReal 2 3 2)
+    = logKernel (3 / 2 + 2 - 1) (6 / 2 + 3) 2 + (2 * Real.log 3 - Real.log (Real.Gamma 2)) :=
+  posterior_kernel (by norm_num) (by norm_num) (by norm_num)
+
+/-- the model's outcome is exactly: target kernel `(r/2 + α - 1, qₜ/2 + β)` and the code's
+    `Gamma(m/2 + α, q/2 + β)` -/
+theorem outcome_kernel (reg : Bool) (Q : Quad) (b : List ℚ) (α β : ℚ) :
+    (outcome reg Q b α β).tLog = (Q.rank : ℚ) / 2 + α - 1 ∧ (outcome reg Q b α β).tLin = Q.target / 2 + β ∧
+    (outcome reg Q b α β).gamma = conjGamma (mOf reg b) α β Q.used := ⟨rfl, rfl, rfl⟩
+
+section quad
+variable {R : Type*} [CommRing R]
+
+/-- **`‖L v‖² = vᵀ P v` for *any* factor with `LᵀL = P`** (any commutative ring, any shape): the
+    model evaluates the rational right-hand side; the code evaluates the left-hand side with whatever
+    Cholesky factor `sqrtprec` returns. -/
+theorem sqrt_factor_quadratic (m n : ℕ) (L P : ℕ → ℕ → R) (v : ℕ → R)
+    (hP : ∀ i j, i < n → j < n → P i j = ∑ k ∈ Finset.range m, L k i * L k j) :
+    ∑ k ∈ Finset.range m, (∑ j ∈ Finset.range n, L k j * v j) ^ 2
+      = ∑ i ∈ Finset.range n, v i * ∑ j ∈ Finset.range n, P i j * v j := by
+  have rhs : ∑ i ∈ Finset.range n, v i * ∑ j ∈ Finset.range n, P i j * v j
+      = ∑ i ∈ Finset.range n, ∑ j ∈ Finset.range n, ∑ k ∈ Finset.range m, v i * (L k i * L k j * v j) := by
+    refine Finset.sum_congr rfl fun i hi => ?_
+    rw [Finset.mul_sum]
+    refine Finset.sum_congr rfl fun j hj => ?_
+    rw [hP i j (Finset.mem_range.1 hi) (Finset.mem_range.1 hj), Finset.sum_mul, Finset.mul_sum]
+  rw [rhs]
+  have lhs : ∀ k, (∑ j ∈ Finset.range n, L k j * v j) ^ 2
+      = ∑ i ∈ Finset.range n, ∑ j ∈ Finset.range n, v i * (L k i * L k j * v j) := by
+    intro k
+    rw [pow_two, Finset.sum_mul_sum]
+    exact Finset.sum_congr rfl fun i _ => Finset.sum_congr rfl fun j _ => by ring
+  simp only [lhs]
+  rw [Finset.sum_comm]
+  refine Finset.sum_congr rfl fun i _ => ?_
+  rw [Finset.sum_comm]
+
+example : ∑ k ∈ Finset.range 1, (∑ j ∈ Finset.range 2, (fun _ j => ((j : ℤ) + 1)) k j * (fun j => (j : ℤ) + 3) j) ^ 2
+    = ∑ i ∈ Finset.range 2, (fun j => (j : ℤ) + 3) i *
+        ∑ j ∈ Finset.range 2, (fun i j => ((i : ℤ) + 1) * ((j : ℤ) + 1)) i j * (fun j => (j : ℤ) + 3) j :=
+  sqrt_factor_quadratic 1 2 _ _ _ (fun i j _ _ => by simp)
+
+/-- `vᵀ(P + εI)v = vᵀPv + ε‖v‖²` — the regularised factor of periodic/Neumann GMRFs. -/
+theorem regularised_quadratic (n : ℕ) (P : ℕ → ℕ → R) (ε : R) (v : ℕ → R) :
+    ∑ i ∈ Finset.range n, v i * ∑ j ∈ Finset.range n, (P i j + if i = j then ε else 0) * v j
+      = ∑ i ∈ Finset.range n, v i * ∑ j ∈ Finset.range n, P i j * v j + ε * ∑ i ∈ Finset.range n, v i ^ 2 := by
+  rw [Finset.mul_sum, ← Finset.sum_add_distrib]
+  refine Finset.sum_congr rfl fun i hi => ?_
+  simp only [add_mul, Finset.sum_add_distrib, ite_mul, zero_mul]
+  rw [Finset.sum_ite_eq, if_pos hi]
+  ring
+
+end quad
+
+/-- the model's `‖D v‖²` is the quadratic form of the precision `DᵀD` of C20 (`gram`) -/
+theorem normSqD_eq_gram_form (D : FMat) (v : ℕ → ℚ) :
+    normSqD D v = ∑ i ∈ Finset.range D.cols, v i * C20.apply (C20.gram D) v i := by
+  rw [normSqD_eq, C20.gram_quadratic_form]
+
+/-- the GMRF operator of every supported order / boundary condition acts on `dim` components -/
+theorem gmrfOp_cols (order : ℕ) (bc : BC) (pd n : ℕ) (ho : order ≤ 2)
+    (hbc : bc = .zero ∨ bc = .periodic ∨ bc = .neumann) :
+    (gmrfOp order bc pd n).cols = gmrfDim pd n := by
+  have h1 : (C20.diffOp order bc n).cols = n := by
+    rcases hbc with rfl | rfl | rfl <;> interval_cases order <;> rfl
+  unfold gmrfOp gmrfDim
+  split_ifs
+  · show n * (C20.diffOp order bc n).cols = n * n
+    rw [h1]
+  · exact h1
+
+/-- **GMRF quadratic forms of the model, as forms of the C20 precision:** the sampler's `q` is
+    `c1 · vᵀ(DᵀD + reg·I)v`, the density's is `c1 · vᵀ DᵀD v` (every order, bc, 1-D/2-D, size). -/
+theorem gmrf_used_is_regularised_form (order : ℕ) (bc : BC) (pd n : ℕ) (c1 : ℚ) (mean b : List ℚ)
+    (ho : order ≤ 2) (hbc : bc = .zero ∨ bc = .periodic ∨ bc = .neumann) :
+    (gmrfQuad order bc pd n c1 mean b).used
+      = c1 * ∑ i ∈ Finset.range (gmrfDim pd n), dev mean b i *
+          (C20.apply (C20.gram (gmrfOp order bc pd n)) (dev mean b) i + gmrfReg bc * dev mean b i) ∧
+    (gmrfQuad order bc pd n c1 mean b).target
+      = c1 * ∑ i ∈ Finset.range (gmrfDim pd n), dev mean b i *
+          C20.apply (C20.gram (gmrfOp order bc pd n)) (dev mean b) i := by
+  have hc := gmrfOp_cols order bc pd n ho hbc
+  simp only [gmrfQuad]
+  rw [normSqD_eq_gram_form, hc, normSq_eq]
+  refine ⟨?_, rfl⟩
+  congr 1
+  rw [Finset.mul_sum, ← Finset.sum_add_distrib]
+  exact Finset.sum_congr rfl fun i _ => by ring
+
+
+/-! ## 4. Validation -/
+
+lemma checkParameter_ok_imp (vars : List MutVar) (h : checkParameter vars ["cov", "prec"] = .ok) :
+    ∃ v, vars.filter (fun v => v.callable && v.hasPar) = [v] ∧
+      ((v.key = "prec" ∧ identityCheck v.probes = true) ∨
+       (v.key = "cov" ∧ reciprocalCheck (probePoints.zip v.probes) = .ok)) := by
+  unfold checkParameter at h
+  split at h
+  · exact absurd h (by decide)
+  · next v hv =>
+    refine ⟨v, hv, ?_⟩
+    split_ifs at h with h1 h2 h3
+    · exact Or.inl ⟨h1.1, h2⟩
+    · have : v.key = "cov" ∨ v.key = "prec" := by simpa using h3
+      rcases this with hk | hk
+      · exact Or.inr ⟨hk, h⟩
+      · exact absurd ⟨hk, by decide⟩ h1
+  · exact absurd h (by decide)
+
+/-- **`validate_rejects` (soundness of the experimental validator's decision procedure).**
+    Whatever is accepted is a Posterior with a *scalar Gamma* prior, a Gaussian/GMRF-type likelihood,
+    *exactly one* mutable variable depending on the hyper-parameter, under key `prec` passing the
+    identity probes or under key `cov` passing the reciprocal probes.  Everything else raises. -/
+theorem validateExp_ok_imp (t : Target) (h : validateExp t = .ok) :
+    t.isPosterior = true ∧ t.priorGamma = true ∧ t.priorDim = 1 ∧
+    (t.lik = .gaussian ∨ t.lik = .gmrf ∨ t.lik = .regGaussian ∨ t.lik = .regGMRF) ∧
+    ∃ v, t.vars.filter (fun v => v.callable && v.hasPar) = [v] ∧
+      ((v.key = "prec" ∧ identityCheck v.probes = true) ∨
+       (v.key = "cov" ∧ reciprocalCheck (probePoints.zip v.probes) = .ok)) := by
+  rcases t with ⟨isP, lik, pg, pdim, preset, loc, vars⟩
+  by_cases hd : pdim = 1
+  · subst hd
+    cases isP <;> cases pg <;> cases preset <;> cases lik <;>
+      simp [validateExp] at h ⊢ <;> exact checkParameter_ok_imp _ h
+  · cases isP <;> cases pg <;> cases preset <;> cases lik <;> simp [validateExp, hd] at h
+
+/-- non-scalar Gamma ⇒ rejected -/
+theorem validateExp_rejects_nonscalar_gamma (t : Target) (h : t.priorDim ≠ 1) : validateExp t ≠ .ok :=
+  fun hok => h (validateExp_ok_imp t hok).2.2.1
+
+/-- several occurrences of the hyper-parameter ⇒ rejected -/
+theorem validateExp_rejects_multiple (t : Target)
+    (h : 2 ≤ (t.vars.filter (fun v => v.callable && v.hasPar)).length) : validateExp t ≠ .ok := by
+  intro hok
+  obtain ⟨v, hv, -⟩ := (validateExp_ok_imp t hok).2.2.2.2
+  rw [hv] at h
+  simp at h
+
+/-- dependence through any key other than `cov` / `prec` (`sqrtprec`, `sqrtcov`, `mean`) ⇒ rejected -/
+theorem validateExp_rejects_other_key (t : Target) (v : MutVar)
+    (hv : t.vars.filter (fun v => v.callable && v.hasPar) = [v]) (hk : v.key ≠ "cov" ∧ v.key ≠ "prec") :
+    validateExp t ≠ .ok := by
+  intro hok
+  obtain ⟨w, hw, hkey⟩ := (validateExp_ok_imp t hok).2.2.2.2
+  rw [hv] at hw
+  obtain rfl : v = w := by simpa using hw
+  rcases hkey with ⟨h, -⟩ | ⟨h, -⟩
+  · exact hk.2 h
+  · exact hk.1 h
+
+/-- LMRF / other likelihoods are not sampled approximately by the exact sampler ⇒ rejected -/
+theorem validateExp_rejects_other_likelihood (t : Target) (h : t.lik = .lmrf ∨ t.lik = .other) :
+    validateExp t ≠ .ok := by
+  intro hok
+  have := (validateExp_ok_imp t hok).2.2.2.1
+  rcases h with h | h <;> simp [h] at this
+
+
+lemma identityCheck_three (a b c : ℚ) :
+    identityCheck [[a], [b], [c]] = true ↔
+      (allcloseTol a 1 = true ∧ allcloseTol b 10 = true ∧ allcloseTol c 100 = true) := by
+  simp [identityCheck, probePoints]
+
+lemma reciprocalCheck_three (a b c : ℚ) :
+    reciprocalCheck (probePoints.zip [[a], [b], [c]]) = .ok ↔
+      (iscloseTol a (1 / 1) = true ∧ iscloseTol b (1 / 10) = true ∧ iscloseTol c (1 / 100) = true) := by
+  simp only [probePoints, List.zip_cons_cons, List.zip_nil_right, reciprocalCheck]
+  split_ifs with h1 h2 h3 <;> simp_all
+
+/-- **`validate_sound_on_power_family`, precision key.**  Among `s ↦ c·s^p` (`p ∈ ℤ`, `c ∈ ℚ`) only
+    `p = 1` with `|c - 1| ≤ 1.001·10⁻⁵` passes the probes (`2s`, `s²`, `1/s`, `1/s²`, constants are
+    rejected).  Factors `c` inside the band are harmless: `c` enters `q` through `L` at `s = 1`. -/
+theorem identityCheck_power_family (c : ℚ) (p : ℤ)
+    (h : identityCheck [[c], [c * 10 ^ p], [c * 100 ^ p]] = true) :
+    p = 1 ∧ |c - 1| ≤ 1 / 100000 + 1 / 100000000 := by
+  rw [identityCheck_three] at h
+  obtain ⟨h1, h10, -⟩ := h
+  rw [allcloseTol_iff] at h1 h10
+  have a1 : |(1 : ℚ)| = 1 := abs_one
+  have a10 : |(10 : ℚ)| = 10 := by norm_num
+  rw [a1] at h1
+  rw [a10] at h10
+  obtain ⟨l1, u1⟩ := abs_le.1 h1
+  obtain ⟨l10, u10⟩ := abs_le.1 h10
+  refine ⟨?_, by linarith⟩
+  by_contra hp
+  rcases lt_or_gt_of_ne hp with hlt | hgt
+  · have hz : (10 : ℚ) ^ p ≤ 1 := zpow_le_one_of_nonpos₀ (by norm_num) (by omega)
+    have hpos : (0 : ℚ) < 10 ^ p := by positivity
+    nlinarith
+  · have hz : (10 : ℚ) ^ (2 : ℤ) ≤ 10 ^ p := zpow_le_zpow_right₀ (by norm_num) (by omega)
+    have h100 : (10 : ℚ) ^ (2 : ℤ) = 100 := by norm_num
+    rw [h100] at hz
+    nlinarith
+
+example : identityCheck [[2 * 1], [2 * 10], [2 * 100]] = false := by
+  rw [Bool.eq_false_iff]; intro h
+  have := (identityCheck_power_family 2 1 (by simpa using h)).2
+  norm_num at this
+
+/-- **`validate_sound_on_power_family`, covariance key:** only `p = -1`, `|c - 1| ≤ 2·10⁻⁹`. -/
+theorem reciprocalCheck_power_family (c : ℚ) (p : ℤ)
+    (h : reciprocalCheck (probePoints.zip [[c], [c * 10 ^ p], [c * 100 ^ p]]) = .ok) :
+    p = -1 ∧ |c - 1| ≤ 2 / 1000000000 := by
+  rw [reciprocalCheck_three] at h
+  obtain ⟨h1, h10, -⟩ := h
+  rw [iscloseTol_iff] at h1 h10
+  have m1 : max |c| |(1 : ℚ) / 1| ≤ |c - 1| + 1 := by
+    rw [div_one, abs_one]
+    refine max_le ?_ (by linarith [abs_nonneg (c - 1)])
+    calc |c| = |(c - 1) + 1| := by ring_nf
+      _ ≤ |c - 1| + |(1 : ℚ)| := abs_add_le _ _
+      _ = |c - 1| + 1 := by rw [abs_one]
+  rw [div_one] at h1
+  have hc : |c - 1| ≤ 2 / 1000000000 := by
+    have := mul_le_mul_of_nonneg_left m1 (show (0 : ℚ) ≤ 1 / 1000000000 by norm_num)
+    rw [div_one] at this
+    linarith
+  refine ⟨?_, hc⟩
+  obtain ⟨lc, uc⟩ := abs_le.1 hc
+  have hpos : (0 : ℚ) < 10 ^ p := by positivity
+  have hx : 0 < c * 10 ^ p := mul_pos (by linarith) hpos
+  have m10 : max |c * 10 ^ p| |(1 : ℚ) / 10| ≤ c * 10 ^ p + 1 / 10 := by
+    rw [abs_of_pos hx, abs_of_pos (by norm_num : (0 : ℚ) < 1 / 10)]
+    exact max_le (by linarith) (by linarith)
+  have h10' : |c * 10 ^ p - 1 / 10| ≤ 1 / 1000000000 * (c * 10 ^ p + 1 / 10) :=
+    h10.trans (mul_le_mul_of_nonneg_left m10 (by norm_num))
+  obtain ⟨l10, u10⟩ := abs_le.1 h10'
+  by_contra hp
+  rcases lt_or_gt_of_ne hp with hlt | hgt
+  · have hz : (10 : ℚ) ^ p ≤ 10 ^ (-2 : ℤ) := zpow_le_zpow_right₀ (by norm_num) (by omega)
+    have h100 : (10 : ℚ) ^ (-2 : ℤ) = 1 / 100 := by norm_num
+    rw [h100] at hz
+    nlinarith
+  · have hz : (1 : ℚ) ≤ 10 ^ p := one_le_zpow₀ (by norm_num) (by omega)
+    nlinarith
+
+/-- the supported form (and scalings within `10⁻⁵`) passes the identity probes -/
+theorem identityCheck_accepts_scaled_identity (c : ℚ) (hc : |c - 1| ≤ 1 / 100000) :
+    identityCheck [[c * 1], [c * 10], [c * 100]] = true := by
+  rw [identityCheck_three, allcloseTol_iff, allcloseTol_iff, allcloseTol_iff]
+  have e1 : c * 1 - 1 = (c - 1) * 1 := by ring
+  have e10 : c * 10 - 10 = (c - 1) * 10 := by ring
+  have e100 : c * 100 - 100 = (c - 1) * 100 := by ring
+  rw [e1, e10, e100, abs_mul, abs_mul, abs_mul]
+  have a1 : |(1 : ℚ)| = 1 := abs_one
+  have a10 : |(10 : ℚ)| = 10 := by norm_num
+  have a100 : |(100 : ℚ)| = 100 := by norm_num
+  rw [a1, a10, a100]
+  refine ⟨by linarith, by linarith, by linarith⟩
+
+/-- non-vacuity of `validateExp_ok_imp`: a conforming GMRF target is accepted -/
+example : validateExp ⟨true, .gmrf, true, 1, true, true,
+    [⟨"mean", false, false, []⟩, ⟨"prec", true, true, [[1], [10], [100]]⟩]⟩ = .ok := by
+  have hid : identityCheck [[1], [10], [100]] = true := by
+    simpa using identityCheck_accepts_scaled_identity 1 (by norm_num)
+  simp [validateExp, checkParameter, hid]
+
+/-- the supported form `1/s` passes the reciprocal probes -/
+theorem reciprocalCheck_accepts_reciprocal :
+    reciprocalCheck (probePoints.zip [[1 / 1], [1 / 10], [1 / 100]]) = .ok := by
+  rw [reciprocalCheck_three, iscloseTol_iff, iscloseTol_iff, iscloseTol_iff]
+  simp only [sub_self, abs_zero]
+  refine ⟨by positivity, by positivity, by positivity⟩
+
+
+/-- the adversarial dependence `s ↦ s (1 + ((s-1)(s-10)(s-100))² / 10⁶)` -/
+def interpolant (s : ℚ) : ℚ := s * (1 + ((s - 1) * (s - 10) * (s - 100)) ^ 2 / 1000000)
+
+/-- **The universal claim "every non-conforming callable is rejected" is false for a three-point
+    probe:** `s(1 + ((s-1)(s-10)(s-100))²/10⁶)` is not the identity (value at 2) yet is accepted. -/
+theorem identityCheck_interpolant_counterexample :
+    interpolant 2 ≠ 2 ∧
+    validateExp ⟨true, .gaussian, true, 1, true, true,
+      [⟨"mean", false, false, []⟩,
+       ⟨"prec", true, true, [[interpolant 1], [interpolant 10], [interpolant 100]]⟩]⟩ = .ok := by
+  have e1 : interpolant 1 = 1 := by unfold interpolant; norm_num
+  have e10 : interpolant 10 = 10 := by unfold interpolant; norm_num
+  have e100 : interpolant 100 = 100 := by unfold interpolant; norm_num
+  refine ⟨by unfold interpolant; norm_num, ?_⟩
+  have hid : identityCheck [[interpolant 1], [interpolant 10], [interpolant 100]] = true := by
+    rw [e1, e10, e100]
+    have := identityCheck_accepts_scaled_identity 1 (by norm_num)
+    simpa using this
+  simp [validateExp, checkParameter, hid]
+
+/-- **Expected negative result (DESIGN §5 no. 19):** the legacy validator does not look at the
+    dependence on the hyper-parameter at all. -/
+theorem validateLegacy_ignores_vars (t : Target) (vs : List MutVar) :
+    validateLegacy { t with vars := vs } = validateLegacy t := rfl
+
+/-- `prec = s²` is accepted by the legacy constructor (rejected by the experimental one) and the
+    Gamma it then draws from (`m = 1, α = β = 1, q = 2`) is not proportional to that posterior. -/
+theorem legacy_accepts_square_counterexample :
+    let t : Target := ⟨true, .gaussian, true, 1, true, true,
+      [⟨"mean", false, false, []⟩, ⟨"prec", true, true, [[1], [100], [10000]]⟩]⟩
+    validateLegacy t = .ok ∧ validateExp t = .notIdentity ∧
+    ¬ ∃ C, ∀ s : ℝ, 0 < s →
+      Real.log (gammaPDFReal ((conjGamma 1 1 1 2).shape : ℝ) ((conjGamma 1 1 1 2).rate : ℝ) s)
+        - (((1 : ℝ) / 2) * Real.log (s ^ 2) - s ^ 2 * 2 / 2 + logKernel (1 - 1) 1 s) = C := by
+  refine ⟨rfl, ?_, ?_⟩
+  · have hid : identityCheck [[1], [100], [10000]] = false := by
+      rw [Bool.eq_false_iff, Ne, identityCheck_three, allcloseTol_iff, allcloseTol_iff, allcloseTol_iff]
+      rintro ⟨-, h, -⟩
+      norm_num at h
+    simp [validateExp, checkParameter, hid]
+  · rintro ⟨C, h⟩
+    have hsh : (0 : ℝ) < ((conjGamma 1 1 1 2).shape : ℝ) := by simp [conjGamma]; norm_num
+    have hr : (0 : ℝ) < ((conjGamma 1 1 1 2).rate : ℝ) := by simp [conjGamma]
+    have h1 := h 1 one_pos
+    have h2 := h 2 two_pos
+    rw [log_gammaPDFReal hsh hr one_pos] at h1
+    rw [log_gammaPDFReal hsh hr two_pos] at h2
+    have hs : ((conjGamma 1 1 1 2).shape : ℝ) = 3 / 2 := by simp [conjGamma]; norm_num
+    have hrr : ((conjGamma 1 1 1 2).rate : ℝ) = 2 := by simp [conjGamma]; norm_num
+    rw [hs, hrr] at h1 h2
+    have l4 : Real.log ((2 : ℝ) ^ 2) = 2 * Real.log 2 := by rw [Real.log_pow]; norm_num
+    unfold logKernel at h1 h2
+    rw [l4] at h2
+    simp only [one_pow, Real.log_one] at h1
+    have lt : Real.log 2 < 1 := by
+      have := Real.log_lt_sub_one_of_pos (show (0 : ℝ) < 2 by norm_num) (by norm_num); linarith
+    nlinarith
+
+/-! ## 5. Direct: the chain is the target's own draw stream -/
+
+lemma directValidateN_spec {α : Type} (k : ℕ) (st : Chain α) :
+    directValidateN k st = { st with pos := st.pos + k } := by
+  induction k generalizing st with
+  | zero => rfl
+  | succ k ih => rw [directValidateN, ih]; simp [directValidate]; omega
+
+/-- **Direct, `n` steps from any state (induction on `n`):** the stored samples are the next `n`
+    draws of the target, in order; every acceptance entry is 1; `n` draws are consumed. -/
+theorem directRun_spec {α : Type} (draws : ℕ → α) (n : ℕ) (st : Chain α) :
+    (directRun draws n st).samples = st.samples ++ (List.range n).map (fun i => draws (st.pos + i)) ∧
+    (directRun draws n st).acc = st.acc ++ List.replicate n 1 ∧
+    (directRun draws n st).pos = st.pos + n := by
+  induction n generalizing st with
+  | zero => simp [directRun]
+  | succ n ih =>
+    obtain ⟨h1, h2, h3⟩ := ih (directStep draws st)
+    rw [directRun]
+    refine ⟨?_, ?_, ?_⟩
+    · rw [h1, List.range_succ_eq_map, List.map_cons, List.map_map]
+      simp only [directStep, List.append_assoc, List.singleton_append, Nat.add_zero]
+      congr 2
+      apply List.map_congr_left
+      intro i _
+      simp only [Function.comp, Nat.succ_eq_add_one]
+      congr 1; omega
+    · rw [h2]; simp [directStep, List.replicate_succ]
+    · rw [h3]; simp [directStep]; omega
+
+example : (directRun (fun i => 10 * i) 3 (chainInit 1 0)).samples = [10, 20, 30] := by
+  rw [(directRun_spec _ 3 _).1]; rfl
+
+/-- **`direct_is_target_sample`:** after `k` assignments of the target (each spends one trial
+    draw in `validate_target`) a run of `N` steps stores exactly the draws `k, …, k+N-1` of the
+    target's own `sample` method. -/
+theorem direct_is_target_sample {α : Type} (draws : ℕ → α) (k N : ℕ) (x0 : α) :
+    (directRun draws N (directValidateN k (chainInit 0 x0))).samples
+        = (List.range N).map (fun i => draws (k + i)) ∧
+    (directRun draws N (directValidateN k (chainInit 0 x0))).acc = List.replicate (N + 1) 1 := by
+  obtain ⟨h1, h2, -⟩ := directRun_spec draws N (directValidateN k (chainInit 0 x0))
+  rw [h1, h2, directValidateN_spec]
+  simp [chainInit, List.replicate_succ]
+
+/-- no draw of the target is used twice -/
+theorem direct_chain_indices_nodup (k N : ℕ) :
+    ((directRun (fun i => i) N (directValidateN k (chainInit 0 0))).samples).Nodup := by
+  rw [(direct_is_target_sample (fun i => i) k N 0).1]
+  exact (List.nodup_range).map (fun a b h => by simpa using h)
+
+
+/-! ## 6. Dependences outside the structure are never sampled exactly -/
+
+/-- **Why rejection is necessary:** with precision `s²` (rank `r`, misfit `q ≠ 0`, any Gamma prior)
+    *no* Gamma distribution is proportional to the posterior — so a sampler that accepts such a
+    target (the legacy one) cannot be exact, whatever parameters it uses. -/
+theorem square_dependence_never_proportional (shape rate r q α β : ℝ) (hsh : 0 < shape) (hr : 0 < rate)
+    (hq : q ≠ 0) :
+    ¬ ∃ C, ∀ s : ℝ, 0 < s →
+      Real.log (gammaPDFReal shape rate s)
+        - ((r / 2) * Real.log (s ^ 2) - s ^ 2 * q / 2 + logKernel (α - 1) β s) = C := by
+  rintro ⟨C, h⟩
+  have h1 := h 1 one_pos
+  have h2 := h 2 two_pos
+  have h4 := h 4 (by norm_num)
+  have h8 := h 8 (by norm_num)
+  rw [log_gammaPDFReal hsh hr one_pos] at h1
+  rw [log_gammaPDFReal hsh hr two_pos] at h2
+  rw [log_gammaPDFReal hsh hr (by norm_num)] at h4
+  rw [log_gammaPDFReal hsh hr (by norm_num)] at h8
+  have l4 : Real.log 4 = 2 * Real.log 2 := by
+    rw [show (4 : ℝ) = 2 ^ 2 by norm_num, Real.log_pow]; norm_num
+  have l8 : Real.log 8 = 3 * Real.log 2 := by
+    rw [show (8 : ℝ) = 2 ^ 3 by norm_num, Real.log_pow]; norm_num
+  unfold logKernel at h1 h2 h4 h8
+  simp only [Real.log_pow, Real.log_one, l4, l8] at h1 h2 h4 h8
+  apply hq
+  push_cast at h1 h2 h4 h8
+  linarith
+
+example : ¬ ∃ C, ∀ s : ℝ, 0 < s → Real.log (gammaPDFReal (3 / 2) 2 s)
+    - (((1 : ℝ) / 2) * Real.log (s ^ 2) - s ^ 2 * 2 / 2 + logKernel (1 - 1) 1 s) = C :=
+  square_dependence_never_proportional _ _ 1 2 1 1 (by norm_num) (by norm_num) (by norm_num)
 
 end CuqiVerif.C10
